@@ -1316,7 +1316,7 @@ class Models:
              builtins.id: b_id, builtins.callable: b_callable, builtins.repr: b_repr, builtins.format: b_format,
              builtins.print: b_print, builtins.abs: b_abs, builtins.ord: b_ord, builtins.chr: b_chr,
              builtins.hash: b_hash, builtins.divmod: b_divmod, object.__new__: b_object_new, builtins.vars: b_vars,
-             builtins.open: b_open}
+             builtins.open: b_open, warnings.warn: (lambda W, a, k: None)}
         return t
 
     # ------------------------------------------------------------------ methods of modelled values
